@@ -167,6 +167,10 @@ STEM = "c02_g0_t0.imec0.ap"
 class CompModel(object):
     fault_kinds = ("kill", "error")
 
+    @staticmethod
+    def info_key(info):
+        return "+after-fault" if info.get("faulted") else ""
+
     def __init__(self, tier, start):
         self.tier = tier
         self.start = start
@@ -290,7 +294,10 @@ class CompModel(object):
                     v.append(("event:refused-but-changed", "%s was refused (%s) but changed the directory: %s -> %s"
                               % (ctx, obs["exc"], sorted(pre_snap), sorted(os.listdir(root)))))
             elif obs["exc"] is not None:
-                v.append(("event:exc:%s" % event["name"], "%s raised %s (files before: %s)" % (ctx, obs["exc"], sorted(k for k in pre_snap))))
+                # in a directory left by an interrupted operation a later call may refuse to work (stale temporary file ...): the statement only promises
+                # what the directory holds after a failure, so a refusal is an alarm only in histories without any fault
+                if not info.get("faulted"):
+                    v.append(("event:exc:%s" % event["name"], "%s raised %s (files before: %s)" % (ctx, obs["exc"], sorted(k for k in pre_snap))))
             else:
                 out = os.path.join(root, obs["status"])
                 if not os.path.exists(out):
@@ -307,7 +314,10 @@ class CompModel(object):
                         v.append(("event:scratch", "%s: the returned file %s is not the complete recording" % (ctx, obs["status"])))
                     if event["scratch"] is not None and not os.path.exists(os.path.join(sdir, STEM + ".meta")):
                         v.append(("event:scratch-meta", "%s: metadata not copied next to the scratch file" % ctx))
-        return v, dict(info)
+        info2 = dict(info)
+        if crash is not None:
+            info2["faulted"] = True
+        return v, info2
 
     def expand(self, sid, snap, info, event, fault_budget):
         root = os.path.join(synth.proc_scratch(), "c02_run")
